@@ -20,6 +20,7 @@ pub enum F2 {
     C09,
     C10,
     C11,
+    C12,
     C13,
     C15,
     C16,
@@ -38,6 +39,7 @@ impl F2 {
             F2::C09 => "C09",
             F2::C10 => "C10",
             F2::C11 => "C11",
+            F2::C12 => "C12",
             F2::C13 => "C13",
             F2::C15 => "C15",
             F2::C16 => "C16",
@@ -100,7 +102,8 @@ fn candidates(focus: F2) -> &'static Vec<u32> {
         m.insert("C09", ids(&|d| d.family == "res"));
         m.insert("C10", ids(&|d| d.family == "cif"));
         m.insert("C11", ids(&|d| d.family == "inv"));
-        m.insert("C13", ids(&|d| d.flavour != Flavour::Thread && ((d.family == "reg") || (plain(d) && d.family == "grid" && (d.limit.is_some() || d.max_memory.is_some()) && d.ttl.is_none()))));
+        m.insert("C12", ids(&|d| d.flavour != Flavour::Thread && matches!(d.family, "reg" | "conc" | "concu")));
+        m.insert("C13", ids(&|d| d.flavour != Flavour::Thread && ((d.family == "reg") || (d.family == "conc" && d.ttl.is_none()) || (plain(d) && d.family == "grid" && (d.limit.is_some() || d.max_memory.is_some()) && d.ttl.is_none()))));
         m.insert("C15", ids(&|d| d.flavour != Flavour::Thread && matches!(d.family, "reg" | "grid" | "concu" | "res" | "inv")));
         m.insert("C16", ids(&|_| true));
         m
@@ -115,6 +118,7 @@ pub fn decode(bytes: &[u8], focus: F2, tier: Tier) -> MacroCase {
     let nf = match focus {
         F2::C01 => 2 + d.choose(2),
         F2::C13 | F2::C15 => 2 + d.choose(3),
+        F2::C12 => 3 + d.choose(6),
         F2::C16 => 1 + d.choose(3),
         _ => 1 + d.choose(2),
     };
@@ -137,11 +141,13 @@ pub fn decode(bytes: &[u8], focus: F2, tier: Tier) -> MacroCase {
     let w: [u32; 6] = match focus {
         F2::C01 => [16, 3, 2, 1, 1, 0],
         F2::C03 => [20, 0, 0, 0, 0, 0],
-        F2::C04 | F2::C05 | F2::C07 => [18, 2, 0, 0, 0, 0],
+        F2::C04 => [18, 2, 1, 0, 2, 0],
+        F2::C05 | F2::C07 => [18, 2, 0, 0, 0, 0],
         F2::C08 => [18, 3, 0, 0, 0, 0],
         F2::C06 => [12, 8, 0, 0, 0, 0],
         F2::C09 | F2::C10 | F2::C11 => [18, 1, 0, 0, 0, 0],
         F2::C13 => [14, 0, 4, 2, 2, 0],
+        F2::C12 => [14, 0, 1, 0, 9, 0],
         F2::C15 => [14, 3, 2, 1, 1, 2],
         F2::C16 => [12, 3, 2, 1, 2, 1],
     };
@@ -228,6 +234,7 @@ fn evaluates(focus: F2, f: &L2Finding, d: &FnDesc, mem_evicted: bool) -> bool {
         F2::C09 => matches!(c, "err-cached" | "miss-present" | "hit-absent" | "stored-unexpectedly" | "ret-value"),
         F2::C10 => matches!(c, "cif-protocol" | "rejected-cached" | "miss-present" | "hit-absent" | "stored-unexpectedly" | "err-cached"),
         F2::C11 => matches!(c, "inv-protocol" | "stale-served" | "valid-recomputed" | "value" | "ret-value" | "miss-present" | "hit-absent"),
+        F2::C12 => matches!(c, "registry-count" | "registry-count-group" | "registry-not-emptied" | "inv-precise" | "hit-absent" | "miss-present" | "no-listing"),
         F2::C13 => matches!(c, "inv-exact" | "inv-precise" | "registry-count" | "bound" | "count" | "order" | "mem-bound" | "mem-count" | "miss-present" | "hit-absent" | "no-listing"),
         F2::C15 => c == "stats",
         F2::C16 => c == "panic",
@@ -256,6 +263,7 @@ struct Acc {
     any_miss: bool,
     any_inv: bool,
     group_match_with_bystander: bool,
+    undeclared_request: bool,
 }
 
 pub fn run_case(bytes: &[u8], focus: F2, tier: Tier) -> CaseOut {
@@ -312,6 +320,7 @@ fn run_in_thread(case: MacroCase, focus: F2, key: u64) -> CaseOut {
         any_miss: false,
         any_inv: false,
         group_match_with_bystander: false,
+        undeclared_request: false,
     };
     // per (fn, key): history flags
     let mut called: BTreeSet<(u8, u8)> = BTreeSet::new();
@@ -459,6 +468,18 @@ fn run_in_thread(case: MacroCase, focus: F2, key: u64) -> CaseOut {
                 findings = sim.invalidate_all_with(&subsets);
             }
             MOp::Group { kind, s } => {
+                {
+                    let used = crate::macro_l2::used_ever();
+                    let declared = corpus.funcs.iter().filter(|f| used.contains(&f.id)).any(|f| match kind {
+                        't' => f.tags.iter().any(|t| t == s),
+                        'e' => f.events.iter().any(|t| t == s),
+                        'd' => f.deps.iter().any(|t| t == s),
+                        _ => f.cache_name == s.as_str() && f.declares_metadata(),
+                    });
+                    if !declared {
+                        a.undeclared_request = true;
+                    }
+                }
                 let holding: Vec<bool> = sim.fns.iter().map(|st| !st.model.entries.is_empty()).collect();
                 let before: Vec<usize> = sim.fns.iter().map(|st| st.model.entries.len()).collect();
                 findings = sim.invalidate_group(*kind, s);
@@ -547,6 +568,7 @@ fn run_in_thread(case: MacroCase, focus: F2, key: u64) -> CaseOut {
     push(a.proper_subset, "proper_subset_invalidation");
     push(a.overflow_after_inv, "overflow_after_invalidation");
     push(a.group_match_with_bystander, "group_invalidation_with_bystander");
+    push(a.undeclared_request, "undeclared_request");
     out.nontrivial = match focus {
         F2::C01 => a.hit_after,
         F2::C03 => a.repeat_call,
@@ -558,6 +580,7 @@ fn run_in_thread(case: MacroCase, focus: F2, key: u64) -> CaseOut {
         F2::C09 => a.err_then_ok_then_call || a.two_errs,
         F2::C10 => a.cif_accept && a.cif_reject && a.rejected_called_again,
         F2::C11 => a.stale_then_call,
+        F2::C12 => a.group_match_with_bystander || a.undeclared_request,
         F2::C13 => (a.proper_subset && a.overflow_after_inv) || a.group_match_with_bystander,
         F2::C15 => a.any_hit && a.any_miss && (a.expiry || a.any_inv),
         F2::C16 => a.overflow || a.mem || a.expiry,
@@ -586,6 +609,7 @@ f2_fns!(run_c08, desc_c08, F2::C08);
 f2_fns!(run_c09, desc_c09, F2::C09);
 f2_fns!(run_c10, desc_c10, F2::C10);
 f2_fns!(run_c11, desc_c11, F2::C11);
+f2_fns!(run_c12, desc_c12, F2::C12);
 f2_fns!(run_c13, desc_c13, F2::C13);
 f2_fns!(run_c15, desc_c15, F2::C15);
 f2_fns!(run_c16, desc_c16, F2::C16);
